@@ -6,7 +6,7 @@ REQUIRED = ["fold_eq_spec", "key_injective"]
 LEAN_FILES = ["Rbp/Model/Utxo.lean", "Rbp/Model/Callbacks.lean", "Rbp/Model/Run.lean"]
 RULE = ("black-box unspentcsvdump on generated spend histories vs (i) the whole-program Lean model and (ii) a declarative python oracle (`created with an address, and no later operation mentions the outpoint`, addresses taken from the "
         "implementation's own script verdicts): random histories with fan-in/fan-out, intra-block spends, several inputs spending one tx, unknown outpoints, address-less / zero-value outputs, identical coinbases (duplicate txids), "
-        "txs with 257..300 outputs, --start/--end ranges; bounded-exhaustive tiny histories (<= 3 txs over 2 blocks x output shapes x spend targets). Row sets compared after sorting. non-trivial = at least one spend of an in-range output; distinct = distinct scenarios")
+        "txs with 257..300 outputs, wide transactions (15..4097 outputs, 65537 in thorough; address-less outputs in front of / between address-bearing ones, several spent later), multi-input transactions whose first (or a later) input is the null outpoint, --start/--end ranges; bounded-exhaustive tiny histories (<= 3 txs over 2 blocks x output shapes x spend targets). Row sets compared after sorting. non-trivial = at least one spend of an in-range output; distinct = distinct scenarios")
 ASSUMPTIONS = ["output index < 2^32, txids 32 bytes"]
 
 CMP = [bb.cmp_exit, bb.cmp_names, bb.cmp_rows, bb.cmp_totals, bb.cmp_tmp]
@@ -50,6 +50,29 @@ def correspondence(ctx):
             s.start = r.randrange(0, len(blocks))
             s.stop = r.choice([None, s.start + 1 + r.randrange(len(blocks))])
         s.meta = {"i": i}
+        scns.append(s)
+        chains[id(s)] = blocks
+    # wide transactions: output counts around every plausible batch / small-vector / u8 / u16 threshold, with address-less
+    # outputs (OP_RETURN, non-standard) in front of and between address-bearing ones, some of them spent later in the range
+    widths = [15, 16, 17, 31, 32, 33, 63, 64, 65, 127, 128, 129, 255, 256, 257, 511, 512, 513, 1023, 1024, 1025, 2048, 2049, 4096, 4097] + ([8192, 16384, 65535, 65536, 65537] if ctx.thorough() else [])
+    for k, w in enumerate(widths):
+        coin = ["bitcoin", "litecoin", "namecoin"][k % 3]
+        a = [b"\x76\xa9\x14" + GC.rb(r, 20) + b"\x88\xac" for _ in range(3)]
+        nul = [b"\x6a\x01\x41", b"\x51", b""]
+        outs = []
+        for j in range(w):
+            # an address-less output first, then mostly address-bearing with holes
+            sc = nul[j % 3] if (j == 0 or j % 97 == 5) else a[j % 3]
+            outs.append((1000 + j, sc))
+        wide = K.Tx([(GC.rb(r, 32), 0, b"\x01\x01", 0xffffffff)], outs)
+        spend_idx = sorted(set([1, 2, w - 1, w // 2] + [r.randrange(w) for _ in range(4)]))
+        spender = K.Tx([(wide.txid(), j, b"\x01\x02", 0xffffffff) for j in spend_idx], [(7, a[0])])
+        b0 = K.Block([GH.coinbase(0, [(50 * 10**8, a[1])]), wide], time=1231006505)
+        b1 = K.Block([GH.coinbase(1, [(50 * 10**8, a[2])]), spender], time=1231007105)
+        blocks = GH.link([b0, b1])
+        s = K.Scenario(coin=coin, callback="unspentcsvdump")
+        GC.simple_layout(s, blocks)
+        s.meta = {"wide": w}
         scns.append(s)
         chains[id(s)] = blocks
     hist, build = GH.tiny_histories("bitcoin", 3 if ctx.thorough() else 2)
